@@ -69,7 +69,14 @@ class C08(Spec):
         rng = random.Random(f'C08/{seed // self.K}')
         cfg = sample_cfg(rng, tier, m_min=2)
         r = rng.random()
-        if r < 0.7:
+        pi = (seed // self.K) % 1000003
+        if pi % 5 == 2:
+            # directed: one operation after the other started on operands from different senders while the main program
+            # goes on (intfam.Gen.overlap_scenario); m >= 3 so that t >= 1 is possible
+            if cfg.m < 3:
+                cfg = sample_cfg(rng, tier, m_min=3)
+            fam, prog = 'int', intfam.gen(rng, cfg, tier, effects=True, overlap=pi // 5)
+        elif r < 0.7:
             fam, prog = 'int', intfam.gen(rng, cfg, tier, effects=True)
         elif r < 0.9:
             fam, prog = 'fld', fldfam.gen(rng, cfg, tier, effects=True)
@@ -1538,6 +1545,7 @@ def _ks(a, b):
 @_register
 class C18(Spec):
     check_id = 'C18'
+    needs_numpy = True      # three templates exercise the NumPy-array versions of the protocols
     family = 'int'
     title = 'values opened inside protocols are statistically masked'
     technique = ('deterministic simulation with seeded protocol randomness: two populations of runs differing only in a '
@@ -1546,7 +1554,7 @@ class C18(Spec):
     level_text = ('weak statistical evidence by design: detects missing, reused or grossly short masks (mask shorter than '
                   'about log2(N) bits of the k required); it cannot certify statistical distance 2^-k, which would need far '
                   'more than 2^k samples')
-    quick = {'runs': 8800, 'wall': 85}
+    quick = {'runs': 10000, 'wall': 85}
     thorough = {'runs': 3000000, 'wall': 900}
     expected_probes = ('internal_openings', 'prss_evaluations')
     rule = ('one evaluation = one simulated 3..5-party run of a small template program (comparison, lsb, mod, to_bits, '
@@ -1582,6 +1590,10 @@ class C18(Spec):
         ('fld-recip-small', 'fld', {'p': 65537, 'd': 1, 'how': 'order'}, (5, 30000), [['reciprocal', ['r'], ['a'], {}]]),
         ('fld-recip-large', 'fld', {'p': (1 << 61) - 1, 'd': 1, 'how': 'order'}, (5, 1 << 60), [['reciprocal', ['r'], ['a'], {}]]),
         ('fxp-cmp', 'fxp', {'l': 24, 'f': 8}, ([3, 2], [524287, 16]), [['ltc', ['r'], ['a'], {'c': [0, 1]}]]),
+        # the NumPy-array versions of the protocols have their own mask code (_np_randoms, np_pow with a public base)
+        ('np-pow-pub', 'np', {'kind': 'int', 'l': 32}, (1, 30), [['rpow_pub', 'r', ['a'], {'base': 2}]]),
+        ('np-sgn', 'np', {'kind': 'int', 'l': 16}, (1, 32767), [['ltc', 'r', ['a'], {'c': 0}]]),
+        ('np-trunc', 'np', {'kind': 'fxp', 'l': 24, 'f': 8}, ([3, 2], [524287, 16]), [['sqr', 'r', ['a'], {}]]),
     ]
 
     def make_case(self, seed, tier):
@@ -1602,6 +1614,11 @@ class C18(Spec):
             prog = {'family': 'fld', 'type': dict(td),
                     'stmts': [['input', ['a'], [], {'sender': 0, 'value': a, 'dummy': 1}]] + [list(s) for s in stmts] +
                              [['const', ['c0'], [], {'value': 1}]], 'outputs': ['c0']}
+        elif fam == 'np':
+            one = [1, 2] if td['kind'] == 'fxp' else 1
+            prog = {'family': 'np', 'type': dict(td), 'tags': [],
+                    'stmts': [['input', 'a', [], {'sender': 0, 'shape': [3], 'values': [a] * 3, 'dummy': [one] * 3}]] +
+                             [list(s) for s in stmts] + [['const', 'c0', [], {'shape': [1], 'values': [one]}]], 'outputs': ['c0']}
         else:
             prog = {'family': 'fxp', 'type': td, 'tags': [],
                     'stmts': [['input', ['a'], [], {'sender': 0, 'value': a, 'dummy': [1, 2]}]] + [list(s) for s in stmts] +
@@ -1632,7 +1649,7 @@ class C18(Spec):
         out = []
         # mask length per (m, t): the masks are sums of binom(m, t) (PRSS) or t+1 terms, each bounded by 2^k / that number
         for (tpl, noprss, site, m_, t_), bits in sorted(by_cfg.items(), key=repr):
-            l_tpl = next((t[2].get('l') for t in self.TEMPLATES if t[0] == tpl and t[1] in ('int', 'fxp')), None)
+            l_tpl = next((t[2].get('l') for t in self.TEMPLATES if t[0] == tpl and (t[1] in ('int', 'fxp') or t[2].get('kind') in ('int', 'fxp'))), None)
             nz = [b for b in bits if b > 1]
             if l_tpl is not None and len(nz) >= 10 and max(nz) < l_tpl + 30 - 5:
                 out.append(('invariant:mask-too-short',
@@ -1654,7 +1671,7 @@ class C18(Spec):
                             f'template {tpl} ({"no PRSS" if noprss else "PRSS"}), values opened at {site}: the two secret inputs give '
                             f'different distributions (KS={d:.3f} > {crit:.3f}, n={n0}+{n1})', None))
             nz = [b for b in bits if b > 1]
-            l_tpl = next((t[2].get('l') for t in self.TEMPLATES if t[0] == tpl and t[1] in ('int', 'fxp')), None)
+            l_tpl = next((t[2].get('l') for t in self.TEMPLATES if t[0] == tpl and (t[1] in ('int', 'fxp') or t[2].get('kind') in ('int', 'fxp'))), None)
             if nz and l_tpl is not None and len(nz) >= 50 and max(nz) < l_tpl + 30 - 3:
                 # additive masks cover the l bits of the value plus k more; multiplicatively blinded values are
                 # uniform in a field of l+k+2 bits: either way the largest of >= 50 opened values has about l+k bits
